@@ -1,4 +1,4 @@
-import Mav.Model.Writer
+import Mav.Proofs.Writer
 /-
   C06 — link signing. Property theorems only. Generic in the hash `H` (SHA-256 in the code).
 -/
@@ -61,5 +61,25 @@ theorem mismatch_refused (cfg : RCfg) (key : Bytes) (hk : cfg.key = some key) (h
 /-- without a key nothing is checked -/
 theorem no_key_passes (cfg : RCfg) (hk : cfg.key = none) (st : RState) (f : Frame) : sigGate cfg st f = .ok st := by
   simp [sigGate, hk]
+
+
+/-- **C06 (writers sign correctly).** A stream writer configured with an outgoing key emits, for every accepted
+    message of the domain, a frame with the signed flag, the link's link id, the 10 µs timestamp of the call and a
+    signature equal to the first 6 bytes of H(key ‖ everything before the signature). -/
+theorem writer_signs (H : Bytes → Bytes) (hH : ∀ x, 6 ≤ (H x).length) (dd : UInt32 → Option WCodec) (c : SWCfg) (hc : CfgOk c)
+    (k : Bytes) (hk : c.key = some k) (st : SWState) (count : Nat) (hseq : st.nextSeq = UInt8.ofNat (count % 256))
+    (t : UInt64) (ht : t.toNat < 2 ^ 48 * 10000) (id : UInt32) (p : Bytes) (hp : p.length ≤ 255) (hid : id < 0x1000000)
+    (codec : WCodec) (hd : dd id = some codec) :
+    ∃ crc : UInt16,
+      let pre := [0xFD, UInt8.ofNat p.length, 1, 0, UInt8.ofNat (count % 256), c.sysId, c.compId] ++ le24 id ++ p ++ le16 crc
+                  ++ [c.linkId] ++ le48 (UInt64.ofNat (t.toNat / 10000))
+      (swWrite H (some dd) c st t (.raw id p)).2 = .ok (pre ++ (H (k ++ pre)).take 6) := by
+  have hv : c.version = 2 := hc.key (by simp [hk])
+  have h := (swWrite_refines H hH (some dd) c hc st count hseq t ht (.raw id p)
+    (by intro dd' _; exact ⟨hp, fun _ => hid⟩)).1
+  rw [h]
+  have hcomp : (if c.compId = 0 then (1 : UInt8) else c.compId) = c.compId := by simp [hc.comp]
+  refine ⟨UInt16.ofBitVec (Spec.crc16 ([UInt8.ofNat p.length, 1, 0, UInt8.ofNat (count % 256), c.sysId, c.compId] ++ le24 id ++ p ++ [codec.crcExtra])), ?_⟩
+  simp [Spec.swWrite, hd, Msg.id, hv, hk, hcomp]
 
 end Mav.C06
